@@ -237,6 +237,9 @@ pub fn stmts(tier: Tier) -> Vec<String> {
         // consumers that are only accepted when the operand types make them infallible (normally rejected
         // under `any`: a checker that wrongly accepts them is caught by the run)
         "y = x < 1", "y = x >= .a", "y = .a > .b", "y = !x", "y = x | {\"m\": 1}", "if x { y = 1 }", "if .a { y = 1 } else { y = \"s\" }",
+        // metadata written on one of two alternative paths (the merged type state must union the metadata kinds)
+        "if .c == true { %m = 1 } else { %m = \"s\" }", "if .c == true { %m = 1 }", "%m = \"s\"", "if .c != true { %m.k = [1] } else { %m = {} }",
+        "z = (.c == true && { %m = 2.5; true })", "z = (to_int(.a) ?? { %m = null; 0 })", "z = (.c == true || { %k = \"s\"; true })", "x = %m", "y = [%m, %k]",
         "y = \"t{{ x }}\"", "y = x <= \"a\"", "y = x != null && x", "y = x > 0 || x < 0", "y = [x < 1, x * 2]", "y = x.b + 1", "y = x[0] - 1",
     ] {
         add(s);
